@@ -34,7 +34,11 @@ def rerun_h1srv(ctx, case_lines, module="H1ServerTrace", cfg="H1ServerTrace.cfg"
         f.write(json.dumps(c) + "\n")
     for old in glob.glob(os.path.join(d, "trace_*.ndjson")):
         os.remove(old)
-    lib.run_driver(drv, ["-cases", cf, "-out", d, "-chunks", 1])
+    args = ["-cases", cf, "-out", d, "-chunks", 1]
+    tag = c.get("cutTag", "")
+    if tag.startswith("tcp:"):
+        args += ["-net", tag[4:]]
+    lib.run_driver(drv, args)
     r = lib.validate(ctx, module, cfg, glob.glob(os.path.join(d, "trace_*.ndjson")), count=False)
     return bool(r[0][1])
 
